@@ -808,7 +808,7 @@ example : addressed Fc (stOf userInRoom false) (frameOf msgToRoom) = ["message"]
     processFrame Fc (stOf userInRoom false) (frameOf msgToRoom) =
       .ok { sMay := ambient, bMust := ["message"], st := .any } (stOf userInRoom false) := by decide
 
-/-- The facts of the tree before e72f1fa: the response handler of `startDialout`
+/-- The facts of the tree before 6c2ef8c: the response handler of `startDialout`
 dereferences `message.Internal.Dialout` without looking at the type. -/
 def factsBeforeDialoutFix : Facts :=
   { Fc with derefs := ("BackendServer.startDialout.func1", "Internal.Dialout", "") :: Fc.derefs }
@@ -825,7 +825,7 @@ the pending request is left for the harness to complete. -/
 example : processFrame Fc (stOf internalPending true) (frameOf incallAnsweringDialout) =
     .ok { st := .any, http := some "1" } (stOf internalPending true) := by decide
 
-/-- The facts of the tree before b4fc1ba: the message counter is labelled with the raw type. -/
+/-- The facts of the tree before 6585c31: the message counter is labelled with the raw type. -/
 def factsBeforeLabelFix : Facts := { Fc with messageCounterLabelFromFixedSet := false }
 
 theorem C10_total_needs_fixed_label :
@@ -833,7 +833,7 @@ theorem C10_total_needs_fixed_label :
       .crash "processMessage: statsMessagesTotal.WithLabelValues(message.Type) with a type that is not valid UTF-8" := by
   decide
 
-/-- The facts of the tree before 6e62647: `CheckValid` does not look into raw members. -/
+/-- The facts of the tree before fe02bf7: `CheckValid` does not look into raw members. -/
 def factsBeforeRawFix : Facts := { Fc with rawValidated := [] }
 
 def msgToBystanderInvalidData : ClientMessage :=
